@@ -343,6 +343,10 @@ func (m *c06Monitor) apply(r *thRun, i int, op callerOp, frame *cptvframe.Frame,
 					m.fail("event-on-failed-start", "wrapped start failed", desc())
 					return
 				}
+				if after := r.th.bucket.Available(); after < A {
+					m.fail("failed-start-took-tokens", "wrapped start failed", fmt.Sprintf("%s; %d tokens left after the refused start", desc(), after))
+					return
+				}
 				m.callerRec = false
 				return
 			}
@@ -399,6 +403,10 @@ func (m *c06Monitor) apply(r *thRun, i int, op callerOp, frame *cptvframe.Frame,
 					}
 					if len(fw) != 1 || ev != 0 {
 						m.fail("failed-restart-side-effects", "restart failed", desc())
+					}
+					// nothing was stored, so nothing was spent: the budget earned for the restart is still there
+					if after := r.th.bucket.Available(); after < A {
+						m.fail("failed-restart-took-tokens", "restart failed", fmt.Sprintf("%s; %d tokens left after the refused restart", desc(), after))
 					}
 					return
 				}
